@@ -61,7 +61,7 @@ assert rank("00") == 0 and rank("zz") == N * N - 1 and rank("000") == N * N and 
 
 contract(
     "zorg.storage.sql._zid_manager:_get_next_id",
-    props=["C07"],
+    props=["C07", "C05"],  # C05: every ZID `db create` writes into a file is one the compiler reads back as a ZID
     args={"last_id": T.bstr(2, 3)},
     returns=T.bstr(2, 3),
     requires={"wf": "wf_suffix(last_id)"},
@@ -177,7 +177,7 @@ def allocatable(z):
 
 contract(
     "zorg.shared.dates:is_zid",
-    props=["C07"],
+    props=["C07", "C05"],
     args={"zid": T.bstr(9, 10)},
     requires={"allocatable": "allocatable(zid)"},
     ensures={"recognised": "result == True"},
